@@ -10,9 +10,10 @@
  *   m tok <tok> <com> <esc>      mpt_memtok; each operand hex (no zero byte), "-" = "", "null" = NULL
  *   m cpy <n> <size>[,<size>...] mpt_memcpy(n, current fragments, fresh target fragments of the given sizes)
  *   m argv <sep-hex>             mpt_message_argv
- *   m args <sep-hex>             mpt_array_message
+ *   m args <sep-hex> [nomem]     mpt_array_message (nomem: the first allocation inside the call fails)
  *   m append <prefix-hex>        mpt_message_append to an array holding the prefix
- *   m qget <max> <off> <fill-hex> <pos> <take>   mpt_message_get on a queue; the result becomes the message
+ *   m qget <max> <off> <fill-hex> <pos> <take> [novec]   mpt_message_get on a queue (novec: no iovec for a second part);
+ *                                the result becomes the message
  */
 #include "drv_util.h"
 #include <errno.h>
@@ -27,6 +28,15 @@ static void *blocks[MAXF + 1];
 static size_t nvec;
 static MPT_STRUCT(message) msg;
 static void *qstore;
+
+/* allocation failure injection: the library's malloc calls are routed here (-Wl,--wrap=malloc) */
+static int fail_malloc;     /* > 0: the fail_malloc-th call from now on returns NULL */
+extern void *__real_malloc(size_t);
+void *__wrap_malloc(size_t n)
+{
+	if (fail_malloc > 0 && !--fail_malloc) return 0;
+	return __real_malloc(n);
+}
 
 static void drop_frags(void)
 {
@@ -156,7 +166,7 @@ int main(void)
 			printf("R ok");
 			tail("0");
 		}
-		else if (!strcmp(op, "qget") && drv_nw == 7) {
+		else if (!strcmp(op, "qget") && (drv_nw == 7 || (drv_nw == 8 && !strcmp(drv_w[7], "novec")))) {
 			size_t mx, off, pos, take;
 			if (drv_parse_nat(drv_w[2], &mx) || drv_parse_nat(drv_w[3], &off) || drv_parse_data(drv_w[4], &dat, &dlen, &isnull) || isnull
 			    || drv_parse_nat(drv_w[5], &pos) || drv_parse_nat(drv_w[6], &take) || off > mx || dlen > mx || !mx) {
@@ -173,7 +183,7 @@ int main(void)
 			vec[0].iov_base = 0; vec[0].iov_len = 0;
 			memset(&msg, 0, sizeof(msg));
 			before();
-			int r = mpt_message_get(&q, pos, take, &msg, vec);
+			int r = mpt_message_get(&q, pos, take, &msg, drv_nw == 8 ? 0 : vec);
 			char code[32];
 			snprintf(code, sizeof(code), "%d", r);
 			if (r < 0) { memset(&msg, 0, sizeof(msg)); printf("R refused"); }
@@ -257,11 +267,13 @@ int main(void)
 			if (r >= 0) printf("R ret=%zd", r); else printf("R ret=%s", drv_errname(r));
 			tail(code);
 		}
-		else if (!strcmp(op, "args") && drv_nw == 3) {
+		else if (!strcmp(op, "args") && (drv_nw == 3 || (drv_nw == 4 && !strcmp(drv_w[3], "nomem")))) {
 			if (parse_byte(drv_w[2], &byte)) { puts("bad-op"); continue; }
 			MPT_STRUCT(array) arr = MPT_ARRAY_INIT;
 			before();
+			fail_malloc = drv_nw == 4 ? 1 : 0;
 			int r = mpt_array_message(&arr, &msg, byte);
+			fail_malloc = 0;
 			char code[32];
 			snprintf(code, sizeof(code), "%d", r);
 			if (r >= 0) printf("R ret=%d out=", r); else printf("R ret=%s out=", drv_errname(r));
